@@ -109,6 +109,7 @@ def _role_ok(an, f, role, call):
 HELPER_SITES = {
     I + '.merge_integration_branches': 'destination',
     I + '.update_integration_branches.<locals>.update': 'integration',
+    I + '.update_integration_branches': 'integration',
     Q + '.add_to_queue': 'queue',
     GU + '.robust_merge': 'temporary',
 }
